@@ -12,7 +12,9 @@ import time
 VERIF = os.path.dirname(os.path.dirname(os.path.abspath(__file__)))
 CRATE = os.path.join(VERIF, 'bounded')
 BIN = os.path.join(CRATE, 'target', 'release', 'acv-bounded')
+BIN_PLAIN = os.path.join(CRATE, 'target', 'plain', 'acv-bounded')
 _built = False
+_built_plain = False
 
 
 def ensure_built():
@@ -33,13 +35,32 @@ def ensure_built():
     return None
 
 
+def ensure_built_plain():
+    """the same crate under profile `plain` (debug assertions and overflow checks off)"""
+    global _built_plain
+    if _built_plain:
+        return None
+    os.makedirs(os.path.join(VERIF, '.cache'), exist_ok=True)
+    with open(os.path.join(VERIF, '.cache', 'bounded.lock'), 'w') as lk:
+        fcntl.flock(lk, fcntl.LOCK_EX)
+        env = dict(os.environ, CARGO_NET_OFFLINE='true')
+        p = subprocess.run(['cargo', 'build', '--profile', 'plain', '--offline', '--quiet'], cwd=CRATE,
+                           capture_output=True, text=True, env=env)
+        fcntl.flock(lk, fcntl.LOCK_UN)
+    if p.returncode != 0:
+        return p.stderr[-4000:]
+    _built_plain = True
+    return None
+
+
 def run(name, tier, seed, opts, pid):
     t0 = time.time()
-    err = ensure_built()
+    plain = bool((opts or {}).get('_plain'))
+    err = ensure_built_plain() if plain else ensure_built()
     if err:
         # /repo does not compile (or the harness does not): cannot decide, never an alarm
         return {'status': 'tool_error', 'detail': 'bounded crate failed to build: ' + err[-1500:]}
-    args = [BIN, name, '--tier', tier, '--seed', str(seed)]
+    args = [BIN_PLAIN if plain else BIN, name, '--tier', tier, '--seed', str(seed)]
     for k, v in (opts or {}).items():
         if k.startswith('_'):
             continue
@@ -66,7 +87,7 @@ def run(name, tier, seed, opts, pid):
         'status': 'failed' if failures else 'ok',
         'failures': failures,
         'bounded_checks': [{
-            'name': d['check'], 'label': 'bounded (executed contract, not proved)', 'bound': d['bound'],
+            'name': d['check'] + (' [plain release profile]' if plain else ''), 'label': 'bounded (executed contract, not proved)', 'bound': d['bound'] + ('; library compiled without debug assertions and overflow checks' if plain else ''),
             'cases': d['cases'], 'nontrivial': d['nontrivial'], 'rule': d['rule'],
             'passed': not failures, 'extra': d.get('extra', {}), 'cmd': cmd,
         }],
